@@ -214,6 +214,20 @@ theorem bad_stream_closes (L : Limits) (r : Receiver) (p : Packet) (ho : r.close
     (r.handle L p).closed = some .badStream ∧ (r.handle L p).log = r.log ∧ (r.handle L p).inbox = r.inbox := by
   simp [Receiver.handle, ho, ht, hbad]
 
+/-- the frame-level receive path the model's `Receiver.malformed` follows: a fresh `Envelope` per wire message,
+and `receiveLengthPrefixed` always reads (and returns) a body, also an empty one -/
+theorem src_pinned_wire :
+    Gen.Mux.src_waitForAndHandleWireBytes = "receiveStart := time.Now(); msg := new(Envelope); _, err := receiveProtoMsg(c.conn, msg); if err != nil { return nil, err }; if c.p2p.metrics != nil { c.p2p.metrics.ReceiveWireTime.Observe(time.Since(receiveStart).Seconds()) }; return lib.FromAny(msg.Payload)" ∧
+    Gen.Mux.src_receiveLengthPrefixed = "readTimeout := ReadTimeout; if len(timeout) == 1 { readTimeout = timeout[0] }; if err := conn.SetReadDeadline(time.Now().Add(readTimeout)); err != nil { return nil, ErrFailedRead(err) }; lengthBuffer := make([]byte, 4); if _, err := io.ReadFull(conn, lengthBuffer); err != nil { return nil, ErrFailedRead(err) }; messageLength := binary.BigEndian.Uint32(lengthBuffer); if messageLength > maxPacketSize { return nil, ErrMaxMessageSize() }; msg := make([]byte, messageLength); if _, err := io.ReadFull(conn, msg); err != nil { return nil, ErrFailedRead(err) }; _ = conn.SetReadDeadline(time.Time{}); return msg, nil" :=
+  ⟨rfl, rfl⟩
+
+/-- **malformed_closes.** A wire frame that is not a well-formed packet envelope closes the connection;
+nothing is delivered, no assembler is touched, and (by `closed_is_final`) nothing is delivered afterwards. -/
+theorem malformed_closes (r : Receiver) (ho : r.closed = none) :
+    r.malformed.closed = some .malformed ∧ r.malformed.log = r.log ∧ r.malformed.inbox = r.inbox ∧
+    r.malformed.asm = r.asm := by
+  simp [Receiver.malformed, ho]
+
 /-- once closed, nothing is ever delivered again -/
 theorem closed_is_final (L : Limits) (r : Receiver) (ps : List Packet) (h : r.closed.isSome) : r.run L ps = r :=
   run_closed L r ps h
